@@ -52,13 +52,28 @@ def sbytes(v):
     raise Unsupported('string value %r' % type(v))
 
 
+GO_SIZE_CLASSES = [8, 16, 24, 32, 48, 64, 80, 96, 112, 128, 144, 160, 176, 192, 208, 224, 240, 256, 288, 320, 352, 384, 416, 448, 480, 512, 576, 640,
+                   704, 768, 896, 1024, 1152, 1280, 1408, 1536, 1792, 2048, 2304, 2688, 3072, 3200, 3456, 4096, 4864, 5376, 6144, 6528, 6784, 6912,
+                   8192, 9472, 9728, 10240, 10880, 12288, 13568, 14336, 16384, 18432, 19072, 20480, 21760, 24576, 27264, 28672, 32768]
+
+
+def go_roundup(c):
+    for k in GO_SIZE_CLASSES:
+        if c <= k:
+            return k
+    return (c + 8191) // 8192 * 8192
+
+
 class BufState:
-    """bytes.Buffer: backing array `cell` (may be longer than the logical length n after a
-    Bytes() call exposed the capacity), logical length n, read offset r"""
+    """bytes.Buffer: backing array `cell`, logical length n, read offset r, capacity cap.
+    Growth follows bytes.Buffer.grow (first allocation 64 bytes, then growSlice: max(len+n, 2*cap) rounded up to the allocator's
+    size class) and REALLOCATES: a slice handed out by Bytes() before the growth keeps the abandoned array, exactly as in Go
+    ("the slice is valid for use only until the next buffer modification")."""
     def __init__(self, data=None):
         self.cell = Cell(list(data or []))
         self.n = len(self.cell.v)
         self.r = 0
+        self.cap = self.n
 
     @property
     def b(self):
@@ -66,6 +81,14 @@ class BufState:
 
     def append(self, items):
         items = list(items)
+        need = self.n + len(items)
+        if need > self.cap:
+            if self.cap == 0 and need <= 64:
+                newcap = 64
+            else:
+                newcap = go_roundup(max(need, 2 * self.cap))
+            self.cell = Cell(list(self.cell.v[:self.n]))
+            self.cap = newcap
         self.cell.v[self.n:self.n + len(items)] = items
         self.n += len(items)
 
@@ -352,9 +375,7 @@ def _(M, a):
 def _(M, a):
     st = bufstate(M, a[0])
     n = st.n - st.r
-    # capacity model of bytes.Buffer: the first allocation is 64 bytes (smallBufferSize);
-    # beyond that the capacity is not modelled (cap = len: slicing past len is reported)
-    cap = max(n, 64 - st.r) if st.n <= 64 else n
+    cap = max(n, st.cap - st.r)
     while len(st.cell.v) < st.r + cap:
         st.cell.v.append(z3.BitVecVal(0, 8))
     return Slice(st.cell, st.r, n, cap)
